@@ -39,7 +39,8 @@ CoverageClauses ==
     IF ~alive \/ ~spaceok THEN {}
     ELSE (IF \A A \in adm : A \in reached THEN {}
           ELSE {IF enc = "fast" THEN "C14.admissible_architecture_unreachable" ELSE "C04.admissible_architecture_unreachable"}
-               \cup (IF CcIds(G) # {} THEN {"C11.scenario_lost"} ELSE {}))
+               \cup (IF CcIds(G) # {} THEN {"C11.scenario_lost"} ELSE {})
+               \cup (IF G.cons # <<>> THEN {"C13.admissible_index_combination_missing"} ELSE {}))
 
 NewStep(e) ==
     /\ fails' = fails \cup Tag(CoverageClauses
@@ -73,7 +74,10 @@ DecStep(e) ==
                                         \/ (b = "C01.instance_not_final" /\ c = "C14.instance_not_final")
                                         \/ (b = "C01.instance_not_feasible" /\ c = "C14.instance_not_feasible")}
                     \cup (IF ok /\ \E o \in outs : o[1] = e.x /\ e.rx # e.x THEN {"C14.valid_vector_changed"} ELSE {})
-    IN /\ fails' = fails \cup Tag(IF alive THEN base \cup hist \cup rowc \cup c14 ELSE {"machinery.decode_without_processor"})
+        c13 == IF G.cons = <<>> THEN {}
+               ELSE (IF "C01.architecture_not_admissible" \in base THEN {"C13.inadmissible_index_combination_offered"} ELSE {})
+                    \cup (IF "C03.two_vectors_one_architecture" \in hist THEN {"C13.index_combination_duplicated"} ELSE {})
+    IN /\ fails' = fails \cup Tag(IF alive THEN base \cup hist \cup rowc \cup c14 \cup c13 ELSE {"machinery.decode_without_processor"})
        /\ raw' = IF ok THEN raw \cup {<<e.x, e.rx>>} ELSE raw
        /\ outs' = IF ok THEN outs \cup {<<e.rx, e.ract>>} ELSE outs
        /\ insts' = IF ok /\ e.hasinst THEN insts \cup {<<e.rx, dg>>} ELSE insts
